@@ -21,6 +21,10 @@ func validateRequests(messages []Message) error {
 			return fmt.Errorf("message at index %d: %w", i, err)
 		}
 	}
+	// all messages have to fit the 16 bit length field of one frame
+	if messagesSizeInt(messages) > int(RSCP_FRAME_MAX_DATA_SIZE) {
+		return ErrRscpDataLimitExceeded
+	}
 	return nil
 }
 
